@@ -75,6 +75,8 @@ class Keeper:
         self.release = []            # queue of plans
         self.current = None
         self.calls = []              # host-side record of acquire/attest
+        self.trace = []              # (seconds since start, event): the driver's own timeline, attached to a report when lock-step is in doubt
+        self.t0 = time.time()
         self.fab.handlers["secure-channel/status"] = self._status
         self.fab.handlers["secure-channel/key"] = self._key
         if attach is not None:
@@ -89,8 +91,8 @@ class Keeper:
         if extra_env:
             env.update(extra_env)
         cmd = (wrapper or []) + [self.exe]
-        self.proc = subprocess.Popen(cmd, stdin=subprocess.PIPE, stdout=open(self.sd + "/stdout.txt", "ab"), stderr=open(self.sd + "/stderr.txt", "ab"),
-                                     pass_fds=(w,), cwd=self.sd, env=env)
+        with open(self.sd + "/stdout.txt", "ab") as so_, open(self.sd + "/stderr.txt", "ab") as se_:
+            self.proc = subprocess.Popen(cmd, stdin=subprocess.PIPE, stdout=so_, stderr=se_, pass_fds=(w,), cwd=self.sd, env=env)
         os.close(w)
         self.out = os.fdopen(r)
         line = self.out.readline().strip()
@@ -101,6 +103,7 @@ class Keeper:
     def _status(self, req):
         with self.lock:
             self.pending_status += 1
+            self.tr("status-arrives pending=%d" % self.pending_status)
             self.lock.notify_all()
             while not self.release:
                 if not self.lock.wait(timeout=60):
@@ -109,6 +112,7 @@ class Keeper:
             self.current = self.release.pop(0)
             self.served += 1
             self.pending_status -= 1
+            self.tr("status-served #%d pending=%d" % (self.served, self.pending_status))
             self.lock.notify_all()
             plan = self.current
         st = plan["status"]
@@ -123,6 +127,7 @@ class Keeper:
     def _key(self, req):
         plan = self.current or {}
         t = req["target"].lstrip("/")
+        self.tr("key-request " + t[-40:])
         if t.endswith("key-attestation"):
             guid = t.split("/")[2]
             a = plan.get("attest", {"kind": "ok"})
@@ -144,6 +149,9 @@ class Keeper:
             return (None, "", b"")
         body = json.dumps({"authorizationScheme": "Azure-HMAC-SHA256", "guid": a["guid"], "issued": "2024-01-01T00:00:00Z", "key": a["key"]})
         return (200, "application/json; charset=utf-8", body.encode())
+
+    def tr(self, what):
+        self.trace.append("%.3f %s" % (time.time() - self.t0, what))
 
     # ---- control
     def ctl(self, line):
@@ -167,6 +175,7 @@ class Keeper:
                 if kick and not kicked and self.pending_status == 0 and time.time() > end - timeout + 0.1 and \
                         self.last_chan in (None, hx("Unknown")):
                     kicked = True
+                    self.tr("kick")
                     self.lock.release()
                     try:
                         self.ctl("notify")
@@ -191,6 +200,7 @@ class Keeper:
                 self.lock.wait(timeout=min(left, 0.1))
         if not self.wait_at_gate(timeout=8.0, kick=kick):
             return None
+        self.tr("state-read")
         line = self.ctl(self.state_op)
         self.last_chan = parse_state(line).get("chan")
         return line
@@ -209,6 +219,18 @@ class Keeper:
         except Exception:
             try:
                 self.proc.kill()
+            except Exception:
+                pass
+        if self.attach is None:
+            # nothing of a finished keeper stays open (a thorough run starts hundreds of them)
+            for f in (self.proc.stdin, getattr(self, "out", None)):
+                try:
+                    if f is not None:
+                        f.close()
+                except Exception:
+                    pass
+            try:
+                self.proc.wait(timeout=3)
             except Exception:
                 pass
         if self.own_fab:
